@@ -278,6 +278,44 @@ theorem classify_strLines (f : Feature) (h : FeatOK f) :
     · simp only [hq, if_false, Bool.false_eq_true, List.append_nil, hquals]
       rw [← hconts]; try simp
 
+/-! ### `_location_to_str` alone -/
+
+theorem locationToStr_read (key : List Char) (blocks : List Blk) (st : Strand) (si ei : Bool)
+    (hb : blocks ≠ []) (hk : key ≠ [] ∧ '\t' ∉ key ∧ '\n' ∉ key) :
+    ∃ t, locationToStr key blocks st si ei = some t ∧
+      readFeatures t = some [⟨key, rowsOf (locPairs blocks st) si ei, []⟩] := by
+  have hp := locPairs_ne_nil blocks st hb
+  have he : (locPairs blocks st).isEmpty = false := by simpa using hp
+  refine ⟨join '\n' (locLines key (cells (locPairs blocks st) si ei)), ?_, ?_⟩
+  · unfold locationToStr; simp [he]
+  rw [cells_eq]
+  cases hr : rowsOf (locPairs blocks st) si ei with
+  | nil => exact absurd hr (rowsOf_ne_nil _ _ _ hp)
+  | cons r rs =>
+    have hlines : ∀ l ∈ locLines key ((r :: rs).map cellOf), '\n' ∉ l := by
+      intro l hl
+      simp only [List.map_cons, locLines, List.mem_cons, List.mem_map] at hl
+      rcases hl with rfl | ⟨c, ⟨r', _, rfl⟩, rfl⟩
+      · exact rowLine_no_nl _ _ hk.2.2
+      · exact rowLine_no_nl _ _ (by simp)
+    unfold readFeatures linesOf
+    rw [splitOn_join '\n' _ (by simp [locLines]) hlines]
+    simp only [List.map_cons, locLines, List.map_map]
+    rw [classify_rowLine _ _ hk.2.1]
+    simp only [hk.1, if_false]
+    have hconts : rs.map (classify ∘ rowLine [] ∘ cellOf) = contLines rs := by
+      unfold contLines
+      apply List.map_congr_left
+      intro r' _
+      simp only [Function.comp]
+      rw [classify_rowLine _ _ (by simp)]
+      simp
+    rw [hconts]
+    have h0 : readLines [] = some ⟨[], [], [], []⟩ := rfl
+    have := readLines_feat ⟨key, r :: rs, []⟩ r rs rfl [] _ h0 rfl rfl
+    simp only [featLs, qualLs, List.map_nil, List.append_nil] at this
+    rw [this]
+
 /-! ### the whole file -/
 
 theorem classify_all (fs : List Feature) (hfs : ∀ f ∈ fs, FeatOK f) :
